@@ -50,4 +50,19 @@ theorem tie_cm_create_delete_routing :
 theorem tie_cache_changed_flag :
     C20.cacheChangedExpr = "changed := !reflect.DeepEqual(cache, new)" ∧ C20.availableSetUnconditionally = true := by decide
 
+/-- critical sections: the whole read–merge–write of the cache (syncConfig) runs under the write lock, and readers get a
+    DeepCopy taken under the read lock — so `sync` is atomic w.r.t. `nodeSpec` and no reader aliases the cache. -/
+theorem tie_cache_critical_sections :
+    C20.syncLockShape = ["Lock", "defer Unlock", "return syncConfig"] ∧
+    C20.cfgCopyLockShape = ["RLock", "defer RUnlock", "return cache.DeepCopy"] := by decide
+
+/-- IsCfgAvailable takes the cache lock, and on first use reads the ConfigMap and runs syncConfig on it — `ensureAvail`.
+    (In the pinned source the lock taken is the READ lock although syncConfig writes the cache; the model treats the
+    check as atomic, which is what either lock kind is meant to give.) -/
+theorem tie_first_use_sync :
+    (C20.availLockKind = "RLock" ∨ C20.availLockKind = "Lock") ∧ C20.availSyncsOnFirstUse = true := by decide
+
+/-- triggerAllNodeEnqueue adds one request per listed node, unfiltered — `cmSync` drains `w.nodes.map (·.1)`. -/
+theorem tie_enqueue_all_nodes : C20.enqueueAllShape = "range Items: q.Add" := by decide
+
 end KoordVerif.C20
